@@ -432,6 +432,7 @@ class BaseParser:
         dependencies = set()
         unprovided_fields = set()
         rejected_fields = set()
+        input_values = {}
         options = context.options
 
         for key, value in data.items():
@@ -454,10 +455,12 @@ class BaseParser:
                 continue
 
             if not options.ignore_alias_conflicts:
-                if name in result:  # or (excluded_keys and name in excluded_keys):
-                    if result[name] != value:
+                if name in input_values:  # or (excluded_keys and name in excluded_keys):
+                    # compare the input values (not the converted result) of the spellings
+                    if input_values[name] != value:
                         context.handle_error(exc.AliasConflictError(item=name, value=value))
                     continue
+                input_values[name] = value
 
             if excluded_keys and name in excluded_keys:
                 continue
